@@ -2,7 +2,6 @@ package txnsnapshot
 
 import (
 	"bytes"
-
 )
 
 // zzPlainStore: n committed rows with symbolic strictly increasing keys and one-byte symbolic
@@ -76,10 +75,10 @@ func zzSamePairs(got, want []zzPair, reverse, keyOnly bool) bool {
 
 // Bound modes for the scan harnesses.
 const (
-	zzBoundEmpty = iota // unbounded end
-	zzBoundSym          // every key of 0..2 bytes
-	zzBoundSymNonEmpty  // every key of 1..2 bytes
-	zzBoundTop          // ff ff ff: above every key of the model, not the end of the key space
+	zzBoundEmpty       = iota // unbounded end
+	zzBoundSym                // every key of 0..2 bytes
+	zzBoundSymNonEmpty        // every key of 1..2 bytes
+	zzBoundTop                // ff ff ff: above every key of the model, not the end of the key space
 )
 
 func zzBound(mode int) []byte {
